@@ -194,6 +194,8 @@ type Endpoint struct {
 	DroppedFull  atomic.Int64
 	WriteErr     func(buf []byte, to memberlist.Address) error // fault injection: returned instead of sending
 	ShutdownGate chan struct{}                                 // if set, Shutdown blocks until it is closed
+	OnAdvertise  func(call int)                                // if set, called on every FinalAdvertiseAddr (1 = first) before it answers: working out the address may take time
+	advCalls     atomic.Int64
 	admit        sync.RWMutex
 }
 
@@ -224,6 +226,10 @@ func (n *Net) Lookup(addr string) *Endpoint {
 }
 
 func (e *Endpoint) FinalAdvertiseAddr(string, int) (net.IP, int, error) {
+	k := int(e.advCalls.Add(1))
+	if f := e.OnAdvertise; f != nil {
+		f(k)
+	}
 	return e.IP, e.Port, nil
 }
 
@@ -366,6 +372,12 @@ func (n *Net) deliver(dst *Endpoint, ev *PacketEvent) {
 	default:
 		dst.DroppedFull.Add(1)
 	}
+}
+
+// Preload places a datagram in the endpoint's receive queue right now, without a timer: traffic that reached the
+// address (the socket is bound) before the application started to read.
+func (e *Endpoint) Preload(from string, buf []byte) {
+	e.packetCh <- &memberlist.Packet{Buf: append([]byte(nil), buf...), From: simAddr{from}, Timestamp: time.Now()}
 }
 
 // Inject delivers a raw datagram to dst as if it came from `from`, now.
